@@ -269,6 +269,7 @@ def run_program(tier, idx, prog=None, plan=None, seed=None, kms=None):
                     for kmk, kmo in kms:
                         km = sk.make_km(kmk, kmo)
                         ent = dict(km=[kmk, kmo])
+                        tags['keymap=' + kmk] += 1
                         try:
                             key = km(*ua, **uk)
                             try: hash(key); ent['hashable'] = True
